@@ -15,6 +15,9 @@ const (
 	// ChecksumSize is the encoded length of the checksum appended to bech32-encoded strings.
 	ChecksumSize = 6
 
+	// MaxLength is the greatest length of a bech32 string (BIP173). Decode rejects longer strings.
+	MaxLength = 90
+
 	// Separator is the separating character which joins the HRP with the version number and encoded data.
 	Separator = constants.Bech32Separator
 )
